@@ -40,7 +40,7 @@ LEFTS = ['', ' ', '\n', '(', ',']
 RIGHTS = ['', ';', ',', ')', ' ', ' ;', '\n)']
 BOUNDARY = list('\'"`;-/*#$\n\r \\a0(),.+_Z:=') + ['é', '€', '\t'] + \
     ['\ufeff', '\u200b', '\u200c', '\u200d', '\u2060', '\u2028', '\x85', '\x00', '\ud800', '\udc00', '\u212a', '\u017f',
-     '\u0130', '\u0131', '\u0301', '\xad', '\U0001f600']
+     '\u0130', '\u0131', '\u0301', '\xad', '\U0001f600', '!', '?', '%', '@', '&', '|', '<', '>', '[', ']', '{', '}', '^', '~', '5', 'x', 'E', 'N']
 
 
 def _lexer():
@@ -88,7 +88,7 @@ def region_kinds():
 REGION_LEFTS = ['', ' ', '\n', '(', ',', ';', '= ', ') ', '\t', 'x '] + \
     ['', ' ', '\n', '(', ',', ';', '= ', ') ', '\t', 'x '] + \
     ['timestamp ', 'interval ', 'like ', 'x::', 'N', 'U&', 'as ', 'zone ', 'time zone ', 'with time zone ',
-     'timestamp WITH\tTIME  ZONE\n', 'x at time zone ', 'AT  TIME\nZONE ', 'not like ', 'values', 'in', 'from', '1+', 'a||', 'x=']
+     'timestamp WITH\tTIME  ZONE\n', 'x at time zone ', 'AT  TIME\nZONE ', 'not like ', 'values', 'in', 'from', '1+', 'a||', 'x=', ':', ' :', '*', 'select *', '%', '?', '.']
 REGION_RIGHTS = ['', ';', ',', ')', ' ', '\n', ' x', '.y', '(', '+1', 'x', '1', '_',
                  # a later occurrence of each terminator (the region must end at the FIRST one)
                  " 'y'", ' "z"', ' `w`', ' /*x*/', ' */', '\n--c\n', ' $$q$$', ' $a$ $A$', "; select '*/' -- '\n"]
